@@ -32,7 +32,7 @@ EXHAUSTIVE = {"quick": False, "thorough": False}
 MIN_NONTRIVIAL = {"quick": 20, "thorough": 150}
 SHARD_TIMEOUT = {"quick": 1200, "thorough": 7200}
 
-G3 = ("grid", "adjacency", "borders", "distances", "areas", "areas_approx")
+G3 = ("grid", "grid_upper", "adjacency", "borders", "distances", "areas", "areas_approx")
 G4 = ("grid", "grid_full", "adjacency", "borders", "distances", "volumes")
 GP = ("pos_array", "pos_volumes", "pos_adjacency", "pos_borders", "pos_distances")
 GF = ("full_array", "full_volumes", "full_adjacency", "full_borders", "full_distances", "full_prefactors")
@@ -63,7 +63,7 @@ NFORMS = {"int": int, "int64": np.int64, "int32": np.int32, "0d_array": lambda n
 
 def small_getters(kind):
     """grids with fewer than four points have no tessellation; their points and their equal-share volumes are still functions of (alg, N)"""
-    return ("grid", "areas") if kind == "3d" else ("grid", "grid_full", "volumes")
+    return ("grid", "grid_upper", "areas") if kind == "3d" else ("grid", "grid_full", "volumes")
 
 
 def build(kind, alg, N, t=None, timed=False, nform="int"):
@@ -86,7 +86,8 @@ def build(kind, alg, N, t=None, timed=False, nform="int"):
 
 def call(kind, obj, g):
     if kind == "3d":
-        return {"grid": lambda: obj.get_grid_as_array(), "adjacency": lambda: obj.get_voronoi_adjacency(),
+        return {"grid": lambda: obj.get_grid_as_array(), "grid_upper": lambda: obj.get_grid_as_array(only_upper=True),
+                "adjacency": lambda: obj.get_voronoi_adjacency(),
                 "borders": lambda: obj.get_cell_borders(), "distances": lambda: obj.get_center_distances(),
                 "areas": lambda: obj.get_spherical_voronoi().get_voronoi_volumes(),
                 "areas_approx": lambda: obj.get_spherical_voronoi().get_voronoi_volumes(approx=True)}[g]()
@@ -291,6 +292,19 @@ def run_history(REC, ops, golden):
                 else:
                     REC.check("C08.digest_equals_fresh_process", d == want[g],
                               {"object": [kind, alg, N, t], "getter": g, "digest": d, "fresh_process_digest": want[g]})
+            elif op[0] == "construct_get_drop":
+                _, kind, alg, N, t, gs = op
+                obj = build(kind, alg, N, t)
+                want = golden.get(json.dumps([kind, alg, N, t]), {})
+                for g in gs:
+                    d = dg(call(kind, obj, g))
+                    if "__error__" in want or g not in want:
+                        REC.skip("C08.digest_equals_fresh_process", "no golden for this getter")
+                    else:
+                        REC.check("C08.digest_equals_fresh_process", d == want[g],
+                                  {"object": [kind, alg, N, t], "getter": g, "digest": d, "fresh_process_digest": want[g], "history": "churn"})
+                del obj
+                nconstruct += 1
             elif op[0] == "get_nondefault":
                 _, k, g, opts = op
                 obj = live[k][4]
@@ -370,6 +384,22 @@ def run_histories(spec):
                     objs.append((kind, alg, N, None))
                     ops += [["get", len(objs) - 1, g] for g in small_getters(kind)]
                 ops.append(["draw", 2])
+        hist.append((ops, objs))
+    if spec["rseed"] % 1000 == 2:
+        # every run: object churn - grids of EQUAL size from different algorithms are built, asked and dropped in a loop, so that new point
+        # sets land on the addresses of freed ones (anything remembered by id(), by shape or by N alone surfaces here)
+        crng = random.Random(spec["rseed"] + 17)
+        ops, objs = [], []
+        for N in (crng.randint(5, 12), crng.randint(13, 30), crng.randint(31, 60)):
+            for rep in range(14):
+                for alg in crng.sample(["ico", "cube3D", "randomS"], 3):
+                    ops.append(["construct_get_drop", "3d", alg, N, None, crng.sample(["grid_upper", "areas", "adjacency", "distances"], 2)])
+                    objs.append(("3d", alg, N, None))
+        for N in (crng.randint(4, 8), crng.randint(9, 14)):
+            for rep in range(4):
+                for alg in crng.sample(["cube4D", "randomQ"], 2):
+                    ops.append(["construct_get_drop", "4d", alg, N, None, crng.sample(["grid", "volumes", "adjacency", "borders"], 2)])
+                    objs.append(("4d", alg, N, None))
         hist.append((ops, objs))
     needed = sorted({(k, a, N, t) for _, objs in hist for (k, a, N, t) in objs}, key=repr)
     golden = golden_for([list(x) for x in needed], spec["rseed"])
